@@ -235,6 +235,22 @@ def _gen_slice(repo, blk, gen):
         s1 = rtok.match_close(src.s, opener)
         if blk.get('inner'):
             s0, s1 = opener + 1, s1 - 1
+    elif blk.get('until_enclosing_close'):
+        # the slice is the expression that follows the anchor, up to (not including) the closer of the
+        # delimiter group the anchor ends in -- or a `,` at that depth
+        s0 = s0 + n
+        k = s0
+        depth = 0
+        while True:
+            t = src.s[k].text
+            if t in rtok.OPEN: depth += 1
+            elif t in rtok.CLOSE:
+                if depth == 0: break
+                depth -= 1
+            elif t == ',' and depth == 0: break
+            k += 1
+            if k > j: raise LostAnchor(f'{a["name"]}: enclosing close not found')
+        s1 = k - 1
     elif blk.get('through_block'):
         # the slice ends at the `}` closing the first `{` block that opens at delimiter depth 0 after `from`
         k = s0
@@ -370,7 +386,7 @@ def generate(repo, template_text, variables=None):
                 blk.setdefault('after_all', []).append((frm.strip(), to.strip()))
             elif d in ('strip', 'keep_attrs', 'from', 'through', 'through_stmt'):
                 blk[d] = rest
-            elif d in ('through_close', 'inner', 'make_pub', 'through_block'):
+            elif d in ('through_close', 'inner', 'make_pub', 'through_block', 'until_enclosing_close'):
                 blk[d] = True
             else:
                 raise TemplateError(f'line {i+1}: unknown directive {d}')
